@@ -20,15 +20,14 @@ pub uninterp spec fn char_offsets_spec(s: Seq<char>) -> Seq<usize>;
 /// E3 (iterator chain -> shim): `s.char_indices().map(|(offset, _)| offset).collect::<Vec<usize>>()`.
 /// The body is the identical std expression. ASSUMED (std doc of `char_indices`: "an iterator over
 /// the chars of a string slice, and their positions"; positions are byte indices *into* the slice):
-/// every offset is `< s.len()`, and a string without chars has no bytes. ASSUMED (std doc of
-/// `slice::from_raw_parts` / allocation: a slice is at most `isize::MAX` bytes): `s.len() <= isize::MAX`.
+/// every offset is `< s.len()`, and a string without chars has no bytes.
+/// (`s.len() <= isize::MAX` is the separate axiom prelude/diff_axioms.rs.)
 #[verifier::external_body]
 pub fn verif_char_byte_offsets(s: &str) -> (r: Vec<usize>)
     ensures
         r@ == char_offsets_spec(s@),
         forall|i: int| 0 <= i < r@.len() ==> (#[trigger] r@[i]) < s.len(),
         r@.len() == 0 ==> s.len() == 0,
-        s.len() <= isize::MAX,
 { s.char_indices().map(|(offset, _)| offset).collect() }
 
 // Option::<&T>::copied — std doc: "Maps an Option<&T> to an Option<T> by copying the contents of the option."
